@@ -182,7 +182,7 @@ def cases(tier, seed):
                 yield dict(kind='int', widths=list(widths), byteord=bo, rk=list(rk))
     # many parameters (>= 10: the keyword numbers $P1B, $P10B, $P2B ... no longer sort like the parameters): every rotation of
     # the width ladder and of the range kinds, so that any permutation of per-parameter keywords moves a width or a mask
-    for D in ((9, 10, 11, 13) if tier == 'quick' else (9, 10, 11, 12, 13, 20, 21, 23, 100, 101, 111)):
+    for D in ((9, 10, 11, 13, 64, 90) if tier == 'quick' else (9, 10, 11, 12, 13, 20, 21, 23, 64, 90, 100, 101, 111)):      # (64 and more: events longer than 255 bytes)
         for s in range(len(WIDTHS)):
             widths = [WIDTHS[(s + i * (1 if D < 100 else 3)) % len(WIDTHS)] for i in range(D)]
             for bo in BYTEORDS:
@@ -273,7 +273,7 @@ def cases(tier, seed):
 
 def bounds(tier, seed):
     return {'complete_product_D': [1, 2] if tier == 'quick' else [1, 2, 3],
-            'many_parameters_D': [9, 10, 11, 13] if tier == 'quick' else [9, 10, 11, 12, 13, 20, 21, 23, 100, 101, 111],
+            'many_parameters_D': [9, 10, 11, 13, 64, 90] if tier == 'quick' else [9, 10, 11, 12, 13, 20, 21, 23, 64, 90, 100, 101, 111],
             'deviation_bound': 2 if tier == 'quick' else 3,
             'many_events': [65537, 131075] if tier == 'quick' else [10001, 32769, 65535, 65536, 65537, 100001, 131075, 262145, 1000001, 1048577]}
 
